@@ -527,6 +527,20 @@ def same_text_same_hints(run: lib.Run) -> None:
             for ti, text in enumerate(HINT_TEXTS):
                 for ctype, url in HINT_COMBOS:
                     want = outcome(lambda: rloader.parse_policy_text(text, filename=url, content_type=ctype))
+                    # … and parse_policy_text itself hands the WHOLE text to the parser of the selected format (which format that is
+                    # is tied by the detection theorems + check_detect): the parsers applied by the harness itself, independently
+                    import yaml as _yaml
+                    fmt_sel = rloader._detect_format(filename=url, content_type=ctype)
+                    independent = outcome(lambda: (_yaml.safe_load(text) if fmt_sel == "yaml" else json.loads(text)))
+                    run.count(f"same-text-same-hints:parser-{fmt_sel}")
+                    if want != independent:
+                        run.spec_failures.append({"part": "same-text-same-hints", "text": text, "content_type": ctype, "name": url,
+                                                  "path": "parse_policy_text", "selected_format": fmt_sel,
+                                                  "delivered": want[:600] if isinstance(want, str) else want,
+                                                  "the_selected_parser_applied_to_the_text": independent[:600] if isinstance(independent, str) else independent,
+                                                  "spec": "parse_policy_text did not read the text with the parser of the format its hints select "
+                                                          "(yaml.safe_load for YAML, json.loads for JSON): the same document means another policy"})
+                        return
                     got = {}
                     for wj in (True, False):
                         fake.get = lambda u, headers=None, timeout=None, wj=wj: FakeResp(text, ctype, wj)
